@@ -27,6 +27,9 @@ type Action struct {
 	Comments  []string          `json:"comments"`
 	Canonical string            `json:"canonical"`
 	M         map[string]string `json:"m,omitempty"` // ImportNames
+	SrcInfo   *SourceInfo       `json:"-"`           // C01: facts of the source file this history was translated from
+	SrcName   string            `json:"-"`
+	Light     bool              `json:"-"` // do not write trees / raw bytes to the trace (no model comparison)
 }
 
 var probeCache = map[string]string{}
@@ -243,7 +246,11 @@ func ReplayHistory(tw *TraceWriter, id int, h []Action) {
 			fA.Add(bA.Code(a.Tree))
 			fB.Add(bB.Code(a.Tree))
 			body = append(body, a.Tree)
-			tw.Emit(Rec{"ev": "Add", "tree": a.Tree})
+			if h[0].SrcInfo != nil {
+				tw.Emit(Rec{"ev": "Add", "tree": Rec{"k": "nil"}}) // the observed body travels with the Render event
+			} else {
+				tw.Emit(Rec{"ev": "Add", "tree": a.Tree})
+			}
 			nrefs++
 		case "Render":
 			rA := renderFile(fA)
@@ -266,8 +273,17 @@ func ReplayHistory(tw *TraceWriter, id int, h []Action) {
 				}
 			}
 			fm, fmok := Gofmt(rB.out)
-			tw.Emit(Rec{"ev": "Render", "status": rA.status, "rawstatus": rB.status, "specs": specs, "refs": refs, "bare": bare,
-				"raw": string(rB.out), "out": Hash(rA.out), "table": tableOf(fB), "parses": parses, "body": append([]*Node{}, body...),
+			c01 := Rec{"on": false, "parses": false, "pkgeq": false, "impeq": false, "asteq": false, "ndecls": 0, "ndiff": 0, "firstdiff": "", "impdiff": "", "file": "", "known": ""}
+			if h[0].SrcInfo != nil {
+				c01 = CompareOutput(rA.out, h[0].SrcInfo)
+				c01["on"], c01["file"], c01["known"] = true, h[0].SrcName, h[0].SrcInfo.Known
+			}
+			rawstatus, rawtext, obsBody := rB.status, string(rB.out), append([]*Node{}, body...)
+			if h[0].Light {
+				rawstatus, rawtext, obsBody = "skip", "", []*Node{}
+			}
+			tw.Emit(Rec{"ev": "Render", "c01": c01, "status": rA.status, "rawstatus": rawstatus, "specs": specs, "refs": refs, "bare": bare,
+				"raw": rawtext, "out": Hash(rA.out), "table": tableOf(fB), "parses": parses, "body": obsBody,
 				"fmteq": rA.status == "nil" && fmok && bytes.Equal(fm, rA.out), "fmtok": fmok})
 			names := map[string]int{}
 			for _, s := range specs {
@@ -302,7 +318,9 @@ func ReplayHistory(tw *TraceWriter, id int, h []Action) {
 			fatal("unknown action " + a.A)
 		}
 	}
-	if id <= 2 {
+	if id <= 2 && h[0].SrcInfo != nil {
+		tw.Sample(Rec{"source_file": h[0].SrcName, "declarations": len(h[0].SrcInfo.Decls), "history_actions": len(h)})
+	} else if id <= 2 {
 		b, _ := json.Marshal(h)
 		var v interface{}
 		json.Unmarshal(b, &v)
